@@ -53,9 +53,15 @@ func (x *X) File(rel string) *ast.File {
 		x.fail("cannot parse %s: %v", rel, err)
 		f = &ast.File{}
 	}
+	if !noCanon {
+		canonFile(rel, f) // locals back to their pinned names (canon.go)
+	}
 	x.files[rel] = f
 	return f
 }
+
+// noCanon: parse without the α-renaming (only for `-pinlocals`, which writes the table it uses).
+var noCanon bool
 
 // Func finds a function or method by name (recv == "" for plain functions; otherwise the receiver type name).
 func (x *X) Func(rel, recv, name string) *ast.FuncDecl {
@@ -163,7 +169,10 @@ func main() {
 	repo := flag.String("repo", "/repo", "repository root")
 	out := flag.String("out", "", "directory for Gen/*.lean")
 	facts := flag.String("facts", "", "facts.json output")
+	pinl := flag.Bool("pinlocals", false, "print pinlocals.go (the local names of the pinned tree) and exit")
 	flag.Parse()
+	noCanon = *pinl
+	allFiles := map[string]*ast.File{}
 	res := map[string]any{}
 	var unrec, changed []string
 	why := map[string]string{}
@@ -179,6 +188,9 @@ func main() {
 			}()
 			m.Run(x)
 		}()
+		for r, f := range x.files {
+			allFiles[r] = f
+		}
 		rec := len(x.why) == 0
 		var sb strings.Builder
 		fmt.Fprintf(&sb, "/-! GENERATED by /verif/extract from the Go sources on every run — do not edit. -/\nnamespace MdsVerif.Gen.%s\n\n", m.Name)
@@ -203,6 +215,10 @@ func main() {
 				changed = append(changed, m.Name)
 			}
 		}
+	}
+	if *pinl {
+		fmt.Print(dumpPinLocals(allFiles))
+		return
 	}
 	res["unrecognised"] = unrec
 	res["why"] = why
